@@ -12,7 +12,7 @@ int creds_make_name(const char *cn, uint8_t *name, size_t *namelen)
 int creds_issue(const CertSpec *spec, const SM2_KEY *subject_key, const Ident *issuer, Ident *out)
 {
 	uint8_t serial[12];
-	uint8_t exts[512];
+	uint8_t exts[2600];
 	size_t extslen = 0;
 	const uint8_t *iname; size_t inamelen;
 	const SM2_KEY *ikey;
@@ -33,6 +33,17 @@ int creds_issue(const CertSpec *spec, const SM2_KEY *subject_key, const Ident *i
 		if (x509_exts_add_basic_constraints(exts, &extslen, sizeof(exts), X509_critical,
 			spec->bc == 1 ? 1 : 0, spec->pathlen) != 1) return -1;
 	}
+	if (spec->pad > 0) {
+		uint8_t gns[2400]; size_t gnslen = 0; int left = spec->pad, k = 0;
+		while (left > 0) {
+			char name[200]; int n = left > 180 ? 180 : left;
+			memset(name, 'a' + (k++ % 26), (size_t)n); name[n] = 0;
+			if (n > 4) memcpy(name + n - 4, ".sim", 4);
+			if (x509_general_names_add_dns_name(gns, &gnslen, sizeof(gns), name) != 1) return -1;
+			left -= n;
+		}
+		if (x509_exts_add_subject_alt_name(exts, &extslen, sizeof(exts), X509_non_critical, gns, gnslen) != 1) return -1;
+	}
 	if (spec->eku) {
 		int kp[1] = { spec->eku == 1 ? OID_kp_server_auth : OID_kp_client_auth };
 		if (x509_exts_add_ext_key_usage(exts, &extslen, sizeof(exts), X509_non_critical, kp, 1) != 1) return -1;
@@ -40,13 +51,15 @@ int creds_issue(const CertSpec *spec, const SM2_KEY *subject_key, const Ident *i
 	out->certlen = 0;
 	p = out->cert;
 	size_t need = 0;
-	if (x509_cert_sign_to_der(X509_version_v3, serial, sizeof(serial), OID_sm2sign_with_sm3,
+	int ver = spec->v1 ? -1 : X509_version_v3;      /* -1: no version field at all, which is how a v1 certificate is encoded */
+	if (spec->v1) extslen = 0;
+	if (x509_cert_sign_to_der(ver, serial, sizeof(serial), OID_sm2sign_with_sm3,
 		iname, inamelen, (time_t)spec->not_before, (time_t)spec->not_after,
 		out->name, out->namelen, subject_key, NULL, 0, NULL, 0,
 		extslen ? exts : NULL, extslen,
 		ikey, SM2_DEFAULT_ID, SM2_DEFAULT_ID_LENGTH, NULL, &need) != 1) return -1;
 	if (need > sizeof(out->cert)) return -1;
-	if (x509_cert_sign_to_der(X509_version_v3, serial, sizeof(serial), OID_sm2sign_with_sm3,
+	if (x509_cert_sign_to_der(ver, serial, sizeof(serial), OID_sm2sign_with_sm3,
 		iname, inamelen, (time_t)spec->not_before, (time_t)spec->not_after,
 		out->name, out->namelen, subject_key, NULL, 0, NULL, 0,
 		extslen ? exts : NULL, extslen,
@@ -72,7 +85,7 @@ void creds_chain(const CredSet *cs, int server, uint8_t *out, size_t *outlen)
 	for (int i = 0; i < cs->depth - 1; i++) append(out, outlen, &cs->sub[i]);
 }
 
-static int g_build_eku;
+static int g_build_eku, g_build_pad_srv, g_build_pad_cli;
 int creds_build(CredSet *cs, int depth, int tlcp)
 {
 	SM2_KEY k;
@@ -99,7 +112,7 @@ int creds_build(CredSet *cs, int depth, int tlcp)
 	}
 
 	if (sm2_key_generate(&k) != 1) return -1;
-	s = (CertSpec){ "server.sim", 0, -1, X509_KU_DIGITAL_SIGNATURE, nb, na, g_build_eku ? 1 : 0 };
+	s = (CertSpec){ "server.sim", 0, -1, X509_KU_DIGITAL_SIGNATURE, nb, na, g_build_eku ? 1 : 0, 0, g_build_pad_srv };
 	if (creds_issue(&s, &k, issuer, &cs->srv_sign) != 1) return -1;
 	if (tlcp) {
 		if (sm2_key_generate(&k) != 1) return -1;
@@ -107,7 +120,7 @@ int creds_build(CredSet *cs, int depth, int tlcp)
 		if (creds_issue(&s, &k, issuer, &cs->srv_enc) != 1) return -1;
 	}
 	if (sm2_key_generate(&k) != 1) return -1;
-	s = (CertSpec){ "client.sim", 0, -1, X509_KU_DIGITAL_SIGNATURE, nb, na, g_build_eku ? 2 : 0 };
+	s = (CertSpec){ "client.sim", 0, -1, X509_KU_DIGITAL_SIGNATURE, nb, na, g_build_eku ? 2 : 0, 0, g_build_pad_cli };
 	if (creds_issue(&s, &k, issuer, &cs->cli_sign) != 1) return -1;
 
 	cs->trust_len = 0;
@@ -148,6 +161,37 @@ const CredSet *creds_get_eku(int depth, int tlcp)
 		have[depth][tlcp] = 1;
 	}
 	return &cache[depth][tlcp];
+}
+
+/* Credentials whose chains have exactly the largest size the library admits (minus delta): both the sender's
+ * tls_init and the receiver's copy must agree that such a chain is fine. */
+const CredSet *creds_get_max(int depth, int tlcp, int delta)
+{
+	static CredSet cache[4][2][10];
+	static int have[4][2][10];       /* 0 not built, 1 ok, -1 size cannot be hit */
+	if (depth < 1 || depth > 3 || delta < 0 || delta > 9) die("bad creds_get_max(%d,%d,%d)", depth, tlcp, delta);
+	if (!have[depth][tlcp][delta]) {
+		if (t_task >= 0) die("creds_get_max first used inside a task");
+		CredSet *cs = &cache[depth][tlcp][delta];
+		size_t want = TLS_MAX_CERTIFICATES_SIZE - (size_t)delta;
+		int ps = 0, pc = 0, ok = 0;
+		for (int it = 0; it < 12 && !ok; it++) {
+			sim_ambient_entropy_seed(0xC0FFEF00 + (uint64_t)depth * 64 + (uint64_t)tlcp * 32 + (uint64_t)delta);
+			g_build_pad_srv = ps; g_build_pad_cli = pc;
+			int ret = creds_build(cs, depth, tlcp);
+			g_build_pad_srv = g_build_pad_cli = 0;
+			if (ret != 1) break;
+			long ds = (long)want - (long)cs->srv_chain_len, dc = (long)want - (long)cs->cli_chain_len;
+			if (!ds && !dc) { ok = 1; break; }
+			/* the first padding costs the extension's own framing; afterwards one character is one byte (until a DER length grows) */
+			ps += (int)ds - (ps == 0 && ds > 40 ? 24 : 0); pc += (int)dc - (pc == 0 && dc > 40 ? 24 : 0);
+			if (ps < 1) ps = 1;
+			if (pc < 1) pc = 1;
+		}
+		cs->ok = ok;
+		have[depth][tlcp][delta] = ok ? 1 : -1;
+	}
+	return have[depth][tlcp][delta] == 1 ? &cache[depth][tlcp][delta] : NULL;
 }
 
 /* ------------------------------------------------------------ defects */
@@ -204,6 +248,17 @@ int creds_derive(const CredSet *good, const CredOpts *o, CredSet *cs)
 		issuer = &fake_ca;
 		extra = 1;
 	}
+	Ident v1ee, below;
+	if (o->issuer_below_v1) {
+		if (sm2_key_generate(&k) != 1) return -1;
+		s = (CertSpec){ "old-device.sim", 0, -1, 0, nb, na, 0, 1 };
+		if (creds_issue(&s, &k, issuer, &v1ee) != 1) return -1;
+		if (sm2_key_generate(&k) != 1) return -1;
+		s = (CertSpec){ "Self-made CA", 1, 0, X509_KU_KEY_CERT_SIGN, nb, na };
+		if (creds_issue(&s, &k, &v1ee, &below) != 1) return -1;
+		issuer = &below;
+		extra = 2;
+	}
 	int64_t lnb = o->leaf_nb ? o->leaf_nb : nb, lna = o->leaf_na ? o->leaf_na : na;
 	Ident leaf, enc;
 	memset(&enc, 0, sizeof(enc));
@@ -230,7 +285,8 @@ int creds_derive(const CredSet *good, const CredOpts *o, CredSet *cs)
 	*chain_len = 0;
 	append(chain, chain_len, &leaf);
 	if (o->prover == 0 && tlcp) append(chain, chain_len, &enc);
-	if (extra) append(chain, chain_len, &fake_ca);
+	if (extra == 1) append(chain, chain_len, &fake_ca);
+	if (extra == 2) { append(chain, chain_len, &below); append(chain, chain_len, &v1ee); }
 	for (int i = 0; i < depth - 1; i++) append(chain, chain_len, &sub[i]);
 	if (o->root_in_chain) append(chain, chain_len, &top);
 	if (o->prover == 0) { cs->srv_sign = leaf; if (tlcp) cs->srv_enc = enc; }
@@ -244,6 +300,9 @@ size_t creds_extra_roots(int n, uint8_t *out, size_t cap)
 	static Ident roots[8];
 	static int have;
 	if (!have) {
+		int in_setup = g_setup_node;
+		if (t_task >= 0) die("creds_extra_roots first used inside a task");
+		g_setup_node = -1;                  /* the harness's own key material never comes out of an endpoint's stream */
 		sim_ambient_entropy_seed(0xC0FFEE77);
 		for (int i = 0; i < 8; i++) {
 			SM2_KEY k; char cn[32];
@@ -252,6 +311,7 @@ size_t creds_extra_roots(int n, uint8_t *out, size_t cap)
 			CertSpec s = { cn, 1, -1, X509_KU_KEY_CERT_SIGN | X509_KU_CRL_SIGN, SIM_T0 - 1000 * 86400LL, SIM_T0 + 2000 * 86400LL };
 			if (creds_issue(&s, &k, NULL, &roots[i]) != 1) die("extra roots issue");
 		}
+		g_setup_node = in_setup;
 		have = 1;
 	}
 	size_t len = 0;
